@@ -64,6 +64,8 @@ func c13Alphabet(algo string, peers []string) []nhEvent {
 	}
 	// a second convergence adapter (another address) to the node r1
 	ev = append(ev, nhEvent{Op: "up", P: "r1#2"}, nhEvent{Op: "down", P: "r1#2"})
+	// a neighbour whose peer endpoint is dtn:none
+	ev = append(ev, nhEvent{Op: "up", P: "anon"})
 	if algo == "dtlsr" {
 		ev = append(ev, nhEvent{Op: "receive", B: 2, P: "r1", Q: "r1"}, nhEvent{Op: "receive", B: 3, P: "r1", Q: "r1"}, nhEvent{Op: "receive", B: 3, P: "r2", Q: "r2"})
 	}
@@ -157,7 +159,7 @@ func c13Oracle(r *nhRun) (string, string) {
 
 func runC13(r *ev.Run, thorough bool) int {
 	peers := []string{"r1", "r2", "r3"}
-	budget := 4000
+	budget := 6000
 	if thorough {
 		peers = []string{"r1", "r2", "r3", "r4", "r5"}
 		budget = 300000
